@@ -1,7 +1,7 @@
 (* Property C16 — pool creation charges exact fees; pool parameters are unique and immutable.
    Statements only; proofs in Proofs/PmProofs.v and Proofs/PmChainProofs.v. *)
 From MD.Model Require Import Base Ownable Epoch PoolMath Types PoolManager FarmManager Chain.
-From MD.Proofs Require Import SwapProofs ChainProofs PmProofs PmChainProofs BankProofs TxBalances.
+From MD.Proofs Require Import SwapProofs ChainProofs PmProofs PmChainProofs BankProofs TxBalances CreateExcess.
 
 (* what a successful CreatePool has checked, and the only messages it emits: the creation fee to the fee
    collector (when non-zero) and the LP denom creation (which consumes the token-factory fee) — nothing is kept *)
@@ -82,6 +82,17 @@ Theorem C16_creation_transaction_moves_exactly_these_balances : forall w sender 
       - ind (String.eqb a PM) (camt (w_tf_fee w) d).
 Proof. exact create_pool_tx_balances. Qed.
 
+(* "charges exact fees": the two validations of CreatePool together force the attached funds to be, denom by denom, exactly
+   the pool creation fee plus the token-factory fee - nothing less, nothing more, no other denom *)
+Theorem C16_creation_funds_are_exactly_the_fees : forall fee tf funds total,
+  validate_fees_are_paid fee tf funds = Ok total ->
+  validate_no_additional_funds funds total = Ok tt ->
+  (forall c, In c funds -> 0 <= amount_of c) -> (forall d, camt funds d <= U128_MAX) ->
+  NoDup (map denom_of tf) -> (forall f, In f tf -> 0 <= amount_of f) -> 0 <= amount_of fee ->
+  (forall f, In f tf -> amount_of f + amount_of fee <= U128_MAX) ->
+  forall d, camt funds d = camt [fee] d + camt tf d.
+Proof. exact fees_paid_exact. Qed.
+
 Print Assumptions C16_create_pool_checks.
 Print Assumptions C16_new_pool.
 Print Assumptions C16_parameters_immutable_and_pools_never_removed.
@@ -90,3 +101,4 @@ Print Assumptions C16_identifiers_and_lp_denoms_unique.
 Print Assumptions C16_lp_denom_injective.
 Print Assumptions C16_genesis_lp_inv.
 Print Assumptions C16_creation_transaction_moves_exactly_these_balances.
+Print Assumptions C16_creation_funds_are_exactly_the_fees.
